@@ -12,7 +12,7 @@ VARIABLE st
 SeqOf(lo, hi) == [i \in 1..(hi - lo + 1) |-> lo + i - 1]
 InRange(s) == s >= 61 /\ s <= 2958465
 \* ---- DATE ----
-Years == IF Thorough THEN {1900, 1999, 2000, 2001, 2023, 2024, 2100, 9998} ELSE {1900, 2024, 2100}
+Years == IF Thorough THEN {1900, 1999, 2000, 2001, 2023, 2024, 2100, 9990} ELSE {1900, 2024, 2100}
 MLo == -14  MHi == 27
 DLo == -70  DHi == 99
 DateRow(y, m) == [i \in 1..(DHi - DLo + 1) |-> LET s == DateNorm(y, m, DLo + i - 1) IN IF InRange(s) THEN s ELSE -1]
